@@ -18,8 +18,10 @@ CLAIM = {
             "Python's \\w on non-ASCII characters is a parameter of the theorems; float repr/float() round trip of Python for floats that are not small multiples of 1/8.",
     "technique": "Lean 4 proofs: print/lex/parse round trip on character-level lexer + Pratt parser + serializer models; translated rule/precedence tables; differential correspondence",
 }
-RULE = ("query pool (standard, extension, compound) + generated standard queries in random spellings + mutated accepted strings; for each: str, recompile, fixed point, AST "
-        "equality modulo shorthand, equal results on probe documents; non-trivial = the query has at least one segment")
+RULE = ("query pool (standard, extension, compound) + every nesting of one infix operator in another (grouping grid) + string literals over the dangerous-name pool in both "
+        "quote styles + float literals in every spelling class + generated standard queries in random spellings + mutated accepted strings + token soup for the lexer; for each "
+        "accepted text: raw and cooked tokens vs the lexer model, compile vs the composed model, str() vs the printer model, recompile, fixed point, AST equality modulo an "
+        "omitted slice step, equal results on probe documents; non-trivial = the query has at least one segment")
 TRUSTED = ["Lean 4.33 kernel; standard axioms only", "translator harness/tables.py (lexer rule texts, precedence tables)",
            "lexer / parser / serializer models tied to the implementation by this differential run", "Python's \\w for non-ASCII characters (parameter uword)"]
 ASSUMPTIONS = ["float literals are multiples of 1/8 in the model correspondence (others are checked on the implementation only)"]
@@ -96,6 +98,7 @@ def literal_texts(ctx):
 
 
 def gen(ctx):
+    ctx.exhaustive_spaces.append("grouping grid: every infix operator nested in every other, on either side, with and without negation (13 x 13 x 5 forms)")
     texts = qpool.all_texts() + EXTRA + literal_texts(ctx) + grouping_grid() + qpool.generated_texts(ctx.rng, 500 if ctx.tier == "quick" else 12000)
     # fuzz: mutate accepted strings
     base = list(texts)
